@@ -109,7 +109,7 @@ PROPS["C13"] = {
 PROPS["C08"] = {
     "module": "CqlVerif.Props.C08",
     "gens": ["policy"],
-    "streams": [{"name": "prep", "quick": 800, "thorough": 30000}],
+    "streams": [{"name": "prep", "quick": 800, "thorough": 30000}, {"name": "ks", "quick": 400, "thorough": 10000}],
     "shrink": False,
     "claim": "Lean theorems unprepared_recovered, cache_filled, execute_answered, execute_succeeds over Model/Prepared for every plan and every backend/proxy state (hosts that never saw the PREPARE, restarted hosts, hosts added later, failing/dropped re-prepares); tied to clientconn.go/connpool.go/session.go by the prep e2e stream (backends that execute an id only if a PREPARE reached them, each compression, late-added hosts, ids inside batches)",
     "note": "trusted: Lean kernel, hand-written model + e2e correspondence; the cache is modelled as a map (LRU eviction beyond ~390k entries is outside: hypothesis 'still cached' is explicit); backend assumption: after a successful PREPARE the same connection executes the id",
